@@ -13,7 +13,7 @@ from vf import gen, hist, repo_root
 from vf.zygote import Client
 
 STEPS = ["call", "call", "call", "edit_efth", "edit_dir", "edit_freq", "edit_dir_via_coords", "edit_freq_via_coords", "edit_values_inplace", "partition_other", "partition_transposed",
-         "partition_same_size", "ptm12_same_size_other_grid", "ptm12_same_size_other_grid", "fit", "unknown_stat", "crsd_other", "reader", "attr_lookup", "call_on_copy", "dataset_accessor_touch"]
+         "partition_same_size", "ptm12_same_size_other_grid", "ptm12_same_size_other_grid", "fit", "unknown_stat", "crsd_other", "reader", "attr_lookup", "call_on_copy", "dataset_accessor_touch", "reconstruct_other"]
 
 
 PTM_WIND = (14.0, 200.0, 30.0)      # fixed wind speed / direction / depth shared by history and observed ptm1/ptm2
@@ -262,6 +262,18 @@ def do_step(step, rng, xr, wavespectra, attrs, obj, f, th, lnames, lsizes, sampl
         other = gen.make_da(np.array([gen.spectrum(rng, ff, tt, "smooth")[0], np.zeros((20, 8))]), ff, tt, ["time"], [2])
         try:
             (other.spec.fit_jonswap() if rng.random() < 0.5 else other.spec.fit_gaussian()).load()
+        except Exception:
+            pass
+    elif step == "reconstruct_other":
+        # reconstruction of another dataset with non-default shapes / options
+        from wavespectra.construct import partition_and_reconstruct
+        ff = np.linspace(0.05, 0.4, 9)
+        tt = np.arange(8) * 45.0
+        other = gen.make_da(np.array([gen.spectrum(rng, ff, tt, "multimodal")[0] for _ in range(2)]), ff, tt, ["time"], [2]).to_dataset(name="efth")
+        for k_, v_ in (("wspd", 8.0), ("wdir", 200.0), ("dpt", 50.0)):
+            other[k_] = (("time",), np.full(2, v_))
+        try:
+            partition_and_reconstruct(other, parts=2, freq_name=str(rng.choice(["pierson_moskowitz", "pierson_moskowitz", "tma", "jonswap"])))
         except Exception:
             pass
     elif step == "unknown_stat":
